@@ -75,6 +75,8 @@ def value_for(row, rnd, size):
         if row['fmt'] in ('N6[+N6]',):
             if size == 'min':
                 return datetime.date(y, m, dd), None
+            if size == 'mid':       # a range of a single day is still a range: (d, d) is a different value from d
+                return (datetime.date(y, m, dd), datetime.date(y, m, dd)), None
             return (datetime.date(y, m, dd), datetime.date(y + 1, m, dd)), None
         if row['fmt'] in ('N6[+N4]',):
             if size == 'min':
